@@ -19,7 +19,9 @@ EXPLANATION = (
     "pivot-processing sites (k=0 and k>=1) have the same decision structure; (R7) every buffer that is accumulated "
     "into during the numeric pass is wholly reset at the start of the pass; (R8) at both pivot sites D[k] == 0 is tested, "
     "and returns ZeroPivot, on every path before 1/D[k] is formed - with or without regularisation; (R9) is_triu, on which "
-    "the NotUpperTriangular rejection rests, examines every stored entry of every column.")
+    "the NotUpperTriangular rejection rests, examines every stored entry of every column; (R10) update / scale / offset of the "
+    "engine's copy go through the entry map in every arm (back-end rule re-run); (R11) the first pivot is read from the value "
+    "array only when column 0 of the permuted matrix is non-empty (finding F8, fixed).")
 ASSUMPTIONS = ['rustc MIR construction and trait resolution are correct', 'amd::order returns a valid permutation']
 
 
@@ -318,9 +320,13 @@ def pivot_sites(rep, F, tag):
             for val, ret, ev, tr in Walker(f, cut_loops=True).leaves(start=numeric_succ, stop={bi}):
                 if ret[0] not in ('stop', 'c', 's') and not (ret[0] == 'diverge'):
                     pass
-                conds = tuple(sorted((_norm_idx(k_, kv), v_) for k_, v_ in val.items()))
-                evs = tuple(_norm_idx('%s:%s:%s' % (e[0], e[1], e[2]), kv) for e in ev if (e[0] == 'store' and not str(e[2]).startswith('arg4[')) or (
-                    e[0] == 'call' and e[1] not in ('index', 'index_mut', 'deref', 'deref_mut')))
+                # the *load* of the pivot differs by construction (pivot 0 is read before the column loop, under a guard on
+                # the column pointers; pivot k is accumulated by the loop): compare what happens to the loaded value
+                is_load_guard = lambda k_: ('arg2[0_usize]' in k_ and 'arg2[1_usize]' in k_)
+                is_load = lambda e: e[0] == 'store' and str(e[1]).startswith(('arg8[', 'index_mut(arg8')) and (str(e[2]).startswith(('arg4[', 'index(arg4')) or str(e[2]) == 'zero()')
+                conds = tuple(sorted((_norm_idx(k_, kv), v_) for k_, v_ in val.items() if not is_load_guard(k_)))
+                evs = tuple(_norm_idx('%s:%s:%s' % (e[0], e[1], e[2]), kv) for e in ev if (e[0] == 'store' and not is_load(e)) or (
+                    e[0] == 'call' and e[1] not in ('index', 'index_mut', 'deref', 'deref_mut', 'zero', 'one')))
                 outcome = ret[0] if ret[0] in ('stop',) else ('return' if ret[0] in ('c', 's') else ret[0])
                 rows.add((conds, evs, outcome))
             tables.append(rows)
@@ -437,6 +443,46 @@ def triu_test(rep, F, tag):
     R.guard(body)
 
 
+def first_pivot_guard(rep, F, tag):
+    """The first pivot is read from the value array before the column loop.  In an upper-triangular matrix column 0 holds at
+    most the (0,0) entry, but it can be structurally absent - check_structure only rejects empty columns of the *input*, and
+    a symmetric permutation moves a missing diagonal entry to the front.  An unguarded Ax[0] then takes the first stored
+    entry of a later column as the pivot and a wrong matrix is factored silently."""
+    R = rep.rule('C12.R11', 'the first pivot is read only if column 0 of the permuted matrix is non-empty (or the permuted matrix is checked for empty columns)')
+
+    def body():
+        f = F.one(name='_factor_inner')
+        # does any stage after the permutation reject empty columns?
+        later_check = False
+        for nm in ('_etree', '_qdldl_new'):
+            for g in F.find(name=nm):
+                for bi, si, st in g.assignments():
+                    rv = st['rv']
+                    if rv['k'] == 'agg' and rv['ak']['a'] == 'adt' and rv['ak'].get('variant') == 'EmptyColumn':
+                        later_check = True
+        sites = []
+        for bi, si, st in f.assignments():
+            if st['p']['p']:
+                t = canon(f.sym_place(st['p']))
+                v = canon(f.sym_rvalue(st['rv']))
+                if (t.startswith('arg8[0_usize]') or t.startswith('index_mut(arg8, 0_usize)')) and re.match(r'(arg4\[|index\(arg4, )', v):
+                    sites.append((bi, v, st['sp']))
+        guarded = []
+        for val, ret, ev, tr in Walker(f, cut_loops=True).leaves():
+            for bi, v, sp in sites:
+                if bi in tr:
+                    g = [k for k in val if re.search(r'arg2\[(0|1)_usize\]', k) and re.search(r'arg2\[(1|0)_usize\]', k.replace('arg2[0_usize]', '', 1) if 'arg2[0_usize]' in k else k)]
+                    g = [k for k in val if ('arg2[0_usize]' in k and 'arg2[1_usize]' in k) or (k.startswith(('lt(0_usize, arg2[1_usize])', 'ne(0_usize, arg2[1_usize])', 'ne(arg2[1_usize], 0_usize)', 'eq(0_usize, arg2[1_usize])', 'eq(arg2[1_usize], 0_usize)')))]
+                    guarded.append(bool(g))
+        ok = later_check or (bool(guarded) and all(guarded)) or not sites
+        R.check(ok, 'first-pivot-present' + tag,
+                '_factor_inner reads the first pivot as %s without testing that column 0 of the (permuted) matrix has an entry, and nothing after the '
+                'permutation rejects empty columns: an input whose diagonal entry at perm[0] is structurally absent is factored as a different matrix '
+                '(A = triu[[1,7],[.,.]], perm = [1,0]: accepted, solve wrong) instead of ZeroPivot / a regularised zero pivot' % [v for b_, v, s_ in sites], f.loc())
+
+    R.guard(body)
+
+
 def run(ctx, rep, tier):
     for cfg in (CONFIGS_THOROUGH if tier == 'thorough' else CONFIGS):
         F = ctx.facts(cfg)
@@ -451,6 +497,7 @@ def run(ctx, rep, tier):
         pivot_sites(rep, F, tag)
         reset_complete(rep, F, E, tag)
         triu_test(rep, F, tag)
+        first_pivot_guard(rep, F, tag)
         # "refactoring after value updates equals factoring the updated matrix": update / scale / offset go through the
         # entry map AtoPAPt in every arm (C08.R5 back-end rule re-run)
         from . import c08, c04
